@@ -34,7 +34,7 @@ KMID_MAX = 1e12
 
 def floors(tier):
     return {"updates_judged": 3000, "accepted": 1500, "rejected": 200, "evictions": 300, "dense_compared": 1500,
-            "used_matrices_checked": 300, "restarted_runs": 20, "restarted_runs_with_smaller_memory": 10, "restored_histories_checked": 20, "runs_with_reused_gradient_buffer": 40, "runs_with_objective_redefined": 60, "filter_calls_judged": 1000, "filter_calls_dropping_points": 300, "__nontrivial__": 30}
+            "used_matrices_checked": 300, "restarted_runs": 20, "restarted_runs_with_smaller_memory": 10, "restored_histories_checked": 20, "runs_with_reused_gradient_buffer": 40, "runs_with_objective_redefined": 60, "filter_calls_judged": 1000, "filter_calls_dropping_points": 300, "pairs_of_histories_advanced_in_turn": 60, "matrices_re-read_before_their_next_update": 3000, "__nontrivial__": 30}
 
 
 # ---------------------------------------------------------------------------
@@ -217,11 +217,30 @@ def candidate_stream(rng, n, length):
         return (A if which == 0 else Aind) @ x - b
 
     which = 0
+    far = bool(rng.random() < 0.2)
+    if far:
+        # iterates far from the origin relative to the steps between them (|x| ~ 1e6..1e9, |s| ~ 1e-3): the step is known exactly
+        # (differences of nearby doubles are exact) although x.y and x_old.y are huge
+        x = x * float(10.0 ** rng.uniform(6, 9))
     g = grad(x, which)
     yield x.copy(), g.copy()
     for _ in range(length):
         r = rng.random()
         cum = np.cumsum(mode_w)
+        if far and rng.random() < 0.6:
+            # a candidate whose step and gradient difference are orthogonal to one part in 1e5..1e7 (on either side of zero)
+            sstep = rng.standard_normal(n) * 1e-3
+            x_new = x + sstep
+            sstep = x_new - x  # the step as the doubles define it
+            y = rng.standard_normal(n) * float(np.linalg.norm(g) / np.sqrt(n) + 1.0)
+            ss = float(sstep @ sstep)
+            if ss > 0:
+                y = y - float(y @ sstep) / ss * sstep
+                y = y + float(rng.choice([-1.0, 1.0])) * float(10.0 ** rng.uniform(-7, -5)) * float(np.linalg.norm(y)) / np.sqrt(ss) * sstep
+            x = x_new
+            g = g + y
+            yield x.copy(), g.copy()
+            continue
         if r < cum[0]:  # convex step
             x = x + rng.standard_normal(n) * np.exp(rng.uniform(-3, 1))
             g = grad(x, 0)
@@ -308,38 +327,69 @@ def run_direct(spec, out):
         out.count("streams_in_20_to_60_dimensions_with_memory_up_to_25")
     length = int(rng.integers(5, 41))
     eps = float(gen.pick(rng, [2.2e-16, 2.2e-16, 1e-8, 1e-3]))
-    stream = candidate_stream(rng, n, length)
-    x0, g0 = next(stream)
-    X, G = deque([x0.copy()]), deque([g0.copy()])
-    mats = LBFGSB_MATRICES(n)
+    # one history, or (one stream in four) two independent histories of the same dimension and memory size advanced in turn, as two
+    # optimisations alive at the same time do (a run nested in the objective of another, interleaved runs)
+    nstreams = 2 if spec["seed"] % 4 == 1 else 1
+    if nstreams == 2:
+        out.count("pairs_of_histories_advanced_in_turn")
+    st = []
+    for q in range(nstreams):
+        stream = candidate_stream(rng, n, length)
+        x0, g0 = next(stream)
+        st.append(dict(stream=stream, X=deque([x0.copy()]), G=deque([g0.copy()]), mats=LBFGSB_MATRICES(n), done=False))
     nrej = nev = 0
-    for k, (xk, gk) in enumerate(stream):
-        pre_X = [v.copy() for v in X]
-        pre_G = [v.copy() for v in G]
-        pre_fields = mats_fields(mats)
-        try:
-            ret = update_lbfgs_matrices(xk.copy(), gk.copy(), X, G, maxcor, mats, False, eps)
-        except Exception as e:
-            if isinstance(e, np.linalg.LinAlgError) and factorised_matrix_cond(pre_X, pre_G, xk, gk, maxcor, eps) > 1e12:
-                # theta*S^T S + L D^-1 L^T is positive definite in exact arithmetic but its condition number exceeds what a
-                # double precision Cholesky factorisation can certify: outside the numerical premise of the statement
-                out.count("update_raised_on_numerically_singular_memory")
+    k = -1
+    while not all(h["done"] for h in st) and not out.violations:
+        k += 1
+        for q, h in enumerate(st):
+            if h["done"]:
+                continue
+            try:
+                xk, gk = next(h["stream"])
+            except StopIteration:
+                h["done"] = True
+                continue
+            X, G, mats = h["X"], h["G"], h["mats"]
+            pre_X = [v.copy() for v in X]
+            pre_G = [v.copy() for v in G]
+            pre_fields = mats_fields(mats)
+            if h.get("post_fields") is not None:
+                # between two updates of this history nothing of its matrix may have moved (whatever else was updated meanwhile)
+                out.count("matrices_re-read_before_their_next_update")
+                ch = fields_equal(h["post_fields"], pre_fields)
+                if ch is not None:
+                    out.violate("matrix_changed_between_updates", f"direct n={n} maxcor={maxcor} candidate {k}: field {ch} of the limited-memory matrix of this "
+                                f"history changed between two of its updates" + (" (another history of the same size was updated in between)" if nstreams == 2 else ""),
+                                source="direct")
+                    break
+            try:
+                ret = update_lbfgs_matrices(xk.copy(), gk.copy(), X, G, maxcor, mats, False, eps)
+            except Exception as e:
+                h["done"] = True
+                if isinstance(e, np.linalg.LinAlgError) and factorised_matrix_cond(pre_X, pre_G, xk, gk, maxcor, eps) > 1e12:
+                    # theta*S^T S + L D^-1 L^T is positive definite in exact arithmetic but its condition number exceeds what a
+                    # double precision Cholesky factorisation can certify: outside the numerical premise of the statement
+                    out.count("update_raised_on_numerically_singular_memory")
+                    continue
+                if len(pre_X) > n:
+                    # more pairs than variables after this candidate: theta*S^T S + L D^-1 L^T is singular in exact arithmetic,
+                    # its Cholesky factorisation succeeds or fails on rounding noise (outside the statement's SPD premise)
+                    out.count("update_raised_with_more_pairs_than_variables")
+                    continue
+                out.violate("update_raised", f"direct n={n} maxcor={maxcor} candidate {k}: update_lbfgs_matrices raised {e!r}", source="direct")
                 break
-            if len(pre_X) > n:
-                # more pairs than variables after this candidate: theta*S^T S + L D^-1 L^T is singular in exact arithmetic,
-                # its Cholesky factorisation succeeds or fails on rounding noise (outside the statement's SPD premise)
-                out.count("update_raised_with_more_pairs_than_variables")
+            c0 = (out.counters.get("rejected", 0), out.counters.get("evictions", 0))
+            judge_update(out, pre_X, pre_G, pre_fields, xk, gk, maxcor, eps, list(X), list(G), ret,
+                         f"direct n={n} maxcor={maxcor} candidate {k}" + (f" (history {q} of two advanced in turn)" if nstreams == 2 else ""), dict(source="direct"))
+            nrej += out.counters.get("rejected", 0) - c0[0]
+            nev += out.counters.get("evictions", 0) - c0[1]
+            h["mats"] = ret
+            h["post_fields"] = mats_fields(ret)
+            if out.violations:
                 break
-            out.violate("update_raised", f"direct n={n} maxcor={maxcor} candidate {k}: update_lbfgs_matrices raised {e!r}", source="direct")
-            break
-        c0 = (out.counters.get("rejected", 0), out.counters.get("evictions", 0))
-        judge_update(out, pre_X, pre_G, pre_fields, xk, gk, maxcor, eps, list(X), list(G), ret,
-                     f"direct n={n} maxcor={maxcor} candidate {k}", dict(source="direct"))
-        nrej += out.counters.get("rejected", 0) - c0[0]
-        nev += out.counters.get("evictions", 0) - c0[1]
-        mats = ret
-        if out.violations:
-            break
+            if nstreams == 2:
+                # what the OTHER history's matrix describes must not have moved: its fields are compared again before its next update
+                pass
     out.nontrivial = nrej > 0 and nev > 0
     out.key = f"direct/{spec['seed']}"
     out.sample = dict(spec=spec, n=n, maxcor=maxcor, candidates=length, eps=eps, rejected=nrej, evictions=nev)
